@@ -155,7 +155,6 @@ extern "C" void c40_pasv_host(void)
 #ifdef VF_THOROUGH
         "2\x01\x01,0,0,1,4,1",
         "0,0,\x01,\x01,4,1",
-        "10,0,0,\x01\x01\x01,4,1",      // h4: any three bytes
 #endif
     };
     ipPortFamily(t, sizeof(t) / sizeof(*t));
@@ -174,8 +173,6 @@ extern "C" void c40_pasv_port(void)
         "10,0,0,1,2\x01\x01,1",
         "10,0,0,1,\x01\x01,1",
         "10,0,0,1,4,1\x01\x01",
-        "10,0,0,1,\x01\x01\x01,1",
-        "10,0,0,1,0,\x01\x01\x01",
 #endif
     };
     ipPortFamily(t, sizeof(t) / sizeof(*t));
@@ -300,8 +297,6 @@ extern "C" void c40_eprt_addr(void)
         "|\x01\x01" "10.0.0.1|8080|",
         "|1|10.0.0.\x01\x01|8080|",
         "|1|2\x01\x01.0.0.1|8080|",
-        "\x01\x01\x01" "10.0.0.1|8080|",
-        "|1|\x01\x01\x01.1|8080|",
 #endif
     };
     if (vf_concretize(vf_range(0, 1, "family"))) {
@@ -337,7 +332,6 @@ extern "C" void c40_eprt_port(void)
         "|1|10.0.0.1|42949673\x01\x01|",
         "|1|10.0.0.1|21474836\x01\x01|",
         "|1|10.0.0.1|92233720368547758\x01\x01|",
-        "|1|10.0.0.1|\x01\x01\x01|",
 #endif
     };
     eprtFamily(t, sizeof(t) / sizeof(*t), false);
@@ -355,7 +349,6 @@ extern "C" void c40_eprt_v6(void)
         "|\x01|::\x01|8080|",
         "|2|\x01:\x01:1|8080|",
         "|2|1::\x01\x01|8080|",
-        "|2|\x01\x01\x01|8080|",
 #endif
     };
     eprtFamily(t, sizeof(t) / sizeof(*t), true);
@@ -364,11 +357,7 @@ extern "C" void c40_eprt_v6(void)
 extern "C" void c40_short(void)
 {
     vf_quiet();
-#ifdef VF_THOROUGH
-    enum { N = 3 };
-#else
     enum { N = 2 };
-#endif
     char text[N + 1];
     const bool eprt = vf_concretize(vf_range(0, 1, "parser"));
     const unsigned len = (unsigned)vf_concretize(vf_range(eprt ? 1 : 0, N, "len"));
@@ -418,9 +407,9 @@ extern "C" void c40_list_unix(void)
         "-rw-r--r-- 1 u g 1\x01 Jan \x01" "1 2020 name",
         "lrwxrwxrwx 1 u g 12 Jan  1  2020 a \x01> \x01",
         "\x01rw 1 u g 12 J\x01n 01 2020 name",                      // type letter, month spelling
+        "l 1 u g 12 Jan 01 2020 \x01\x01",
+        "- 1 u g 12 Jan 01 2\x01\x01 name",
         "-rw-r--r-- 1 u g 12 jan 1\x01 1999\x01 x",                 // type B layout with a short day
-        "l 1 u g 12 Jan 01 2020 \x01\x01\x01",
-        "- 1 u g 12 Jan 01 \x01\x01\x01 name",
 #endif
     };
     listFamily(t, sizeof(t) / sizeof(*t));
@@ -437,9 +426,8 @@ extern "C" void c40_list_other(void)
         "+i1.2,\x01\x01",                                           // EPLF without / with an empty name
 #ifdef VF_THOROUGH
         "+\x01\x01",
-        "0\x01-05-70 \x01\x01:33PM <dir> name",
-        "+\x01\x01\x01",
-        "+s1,m\x01\x01,\t\x01",
+        "0\x01-05-70 \x01" "9:33PM <dir> name",
+        "+s1,m\x01,\t\x01",
 #endif
     };
     listFamily(t, sizeof(t) / sizeof(*t));
